@@ -463,9 +463,12 @@ def _run_grid(case, M):
     flat_d = dict(jax.tree_util.tree_flatten_with_path(o_d)[0])
     for path, a in jax.tree_util.tree_flatten_with_path(o_f)[0]:
       b = flat_d[path]
-      if a.ndim >= 2 and a.shape[-2:] == msf:
+      # classify by the shape of the DEFAULT (unpadded) result: the padded modal and nodal shapes of
+      # the variant can coincide (e.g. both (16, 16)), the unpadded ones only when the two crops are
+      # the same slices anyway
+      if b.ndim >= 2 and b.shape[-2:] == (2 * Mw, Lw):
         a, b = cut(a), cut(b)
-      elif a.ndim >= 2 and a.shape[-2:] == nsf:
+      elif b.ndim >= 2 and b.shape[-2:] == (nlon, nlat):
         a, b = crop(a), crop(b)
       M.close('option_variant_eq_default_fast', a, b, eps if f64 else tol, scale=max(amax(b), 1e-300),
               info={'grid': cfg, 'function': jax.tree_util.keystr(path)})
